@@ -71,7 +71,8 @@ theorem xclaimE_for {n : Nat} (hFE : FClaimE n) (hF : XClaimF n) {ls : List (Opt
   have lsn : g4.loops.length ≤ g5.loops.length := tots.2.1
   simp only [forDone_len] at hlo
   -- the templates of the four parts
-  have hg0 : GenOk (forGs gs c label) g5 s := ⟨hgen.live, hgen.main, hgen.len, hgen.tmpl⟩
+  have hg0 : GenOk (forGs gs c label) g5 s := ⟨hgen.live, hgen.main, hgen.len, hgen.tmpl,
+    hgen.loops.for_body (((totb.1.trans toti.1).trans tott.1).trans tots.1) (KeepFns.refl g5)⟩
   have hgb : GenOk (forGs gs c label) g2 s := hg0.first ((toti.1.trans tott.1).trans tots.1)
   have hgi : GenOk g2 g3 s := (hg0.rest totb.1).first (tott.1.trans tots.1)
   have hgt : GenOk g3 g4 s := (hg0.rest (totb.1.trans toti.1)).first tots.1
@@ -157,7 +158,8 @@ theorem xclaimE_for {n : Nat} (hFE : FClaimE n) (hF : XClaimF n) {ls : List (Opt
   have hfr24 : FrameF s2 s4 := by subst hs4; exact (FrameF.jmp _ _ _).trans (FrameF.jmp _ _ _)
   have hfn4 : fnOf s4 s4.curfunc = fnOf s s.curfunc := by subst hs4; exact hfn2
   have hfns4 : s4.fns = s.fns := by subst hs4; exact hfns2
-  have hk04 : FnsKeep s s4 := FnsKeep.of_fns_eq hfns4
+  have hk04 : FnsKeep s s4 := FnsKeep.of_fns_eq hfns4 ⟨Nat.le_trans hfr2.loopsLen hfr24.loopsLen, fun id hid =>
+    (hfr24.loops id (Nat.lt_of_lt_of_le hid hfr2.loopsLen)).trans (hfr2.loops id hid)⟩
   have hreach4 : ReachX s s4 := ((r0.trans r1).trans r2).trans r3
   have hnl04 : FrameNL s s4 := (FrameNL.pushScope s).trans (hfr2.trans hfr24).toNL
   -- the initialiser
@@ -283,7 +285,7 @@ theorem xclaimE_for {n : Nat} (hFE : FClaimE n) (hF : XClaimF n) {ls : List (Opt
       have hm08 : MExt s m m8 := hm06.trans hm8 hnl07.fnsLen
       refine ⟨_, m8, .nil, ((((hreach7.trans r8).trans r10).trans r11).trans r12), ⟨hfn10, ?_, ?_⟩, rfl,
         (hrel.back (s₅ := s10.popScope) rel10 rfl rfl rfl rfl (by show s10.linear.tail = _; rw [hlin10]; rfl) hfr_in.curfunc
-          hflags hfl hfo hext).jmp _ _, hm08, hext07.trans ext8, hframe.trans (FrameF.jmp _ _ _),
+          hflags hfl hfo hext ⟨hfr_in.loopsLen, hfr_in.loops⟩).jmp _ _, hm08, hext07.trans ext8, hframe.trans (FrameF.jmp _ _ _),
         vOk_lit .nil (fun _ _ _ => rfl)⟩
       · show s10.pc + 1 + 1 = _
         rw [hpc10, hpc, hlen]; push_cast; omega
@@ -551,12 +553,12 @@ theorem runText_Fx (m : Nat → Nat) (s : St) (rs : Ref.St) (p : List Expr) (hne
     show (List.set gs'.fns mainFn _).length = _; simp
   have hkeep : FnsKeep s (loadedF s gs' code) :=
     ⟨by rw [hlenL]; exact hk.len, fun id hid hne' => by rw [hfother id hne']; exact hk.fns id hid,
-     by rw [hfmain], by rw [hfmain]⟩
+     by rw [hfmain], by rw [hfmain], ⟨hk.loopsLen, hk.loopsGet⟩⟩
   have hrelL : RelF m (loadedF s gs' code) { rs with trace := [] } 0 :=
     hrel.load rfl rfl hs.cur.symm rfl rfl hkeep
   have hgen : GenOk { fns := s.fns, loops := s.loops, loopstack := s.loopstack, live := s.linear } gs' (loadedF s gs' code) :=
     ⟨hlin, hs.main, by rw [hlenL]; exact Nat.le_refl _,
-     fun t' h1 _ => hfother t' (by have := hs.main; simp only at h1; omega)⟩
+     fun t' h1 _ => hfother t' (by have := hs.main; simp only at h1; omega), ⟨Nat.le_refl _, fun _ _ _ => rfl⟩⟩
   have hloops : (loadedF s gs' code).loops = gs'.loops := rfl
   have hsim := segment_Fx_begin [] p hne hp _ {} rfl _ ((code, t), gs') hc [] rfl hg0 m (loadedF s gs' code)
     { rs with trace := [] } 0 (fnOf s mainFn).code [] hrelL hgen (fun _ h => by cases h)
